@@ -177,7 +177,9 @@ theorem sqDistSeg_le_at (p a b : P K) (t : K) (h0 : 0 ≤ t) (h1 : t ≤ 1) :
     rw [hrhs]
     by_cases hc1 : t0 ≤ 0
     · rw [if_pos hc1]
-      nlinarith [mul_nonneg h0 (mul_nonneg (neg_nonneg.mpr hc1) hl2.le), mul_nonneg (mul_self_nonneg t) hl2.le]
+      have A := mul_nonneg h0 (mul_nonneg (neg_nonneg.mpr hc1) hl2.le)
+      have B := mul_nonneg (mul_self_nonneg t) hl2.le
+      linear_combination 2 * A + B
     · rw [if_neg hc1]
       by_cases hc2 : 1 ≤ t0
       · rw [if_pos hc2]
@@ -188,7 +190,7 @@ theorem sqDistSeg_le_at (p a b : P K) (t : K) (h0 : 0 ≤ t) (h1 : t ≤ 1) :
         have e1 : 0 ≤ (1 - t) * ((t0 - 1) * l2) :=
           mul_nonneg (by linarith) (mul_nonneg (by linarith) hl2.le)
         have e2 : 0 ≤ (1 - t) * (1 - t) * l2 := mul_nonneg (mul_self_nonneg _) hl2.le
-        nlinarith
+        linear_combination 2 * e1 + e2
       · rw [if_neg hc2]
         have hlhs : (p.x - (a.x + vx * t0)) * (p.x - (a.x + vx * t0))
               + (p.y - (a.y + vy * t0)) * (p.y - (a.y + vy * t0))
@@ -196,7 +198,7 @@ theorem sqDistSeg_le_at (p a b : P K) (t : K) (h0 : 0 ≤ t) (h1 : t ≤ 1) :
           rw [← hdot, hl2d, hwx, hwy]; ring
         rw [hlhs]
         have e : 0 ≤ (t - t0) * (t - t0) * l2 := mul_nonneg (mul_self_nonneg _) hl2.le
-        nlinarith
+        linear_combination e
 
 /-- … and is attained -/
 theorem sqDistSeg_attained (p a b : P K) :
@@ -386,7 +388,6 @@ theorem bandRec_sound (edges : List (P K × P K)) (d2 : K) (q : P K) :
   | succ n ih =>
     intro y0 y1 l0 l1 r0 r1 h hlt hy0 hy1 hl hr
     rw [bandRec] at h
-    simp only [] at h
     have e2 : (Scalar.two : K) = 2 := sc_two
     rw [e2, Bool.or_eq_true, Bool.and_eq_true, Bool.and_eq_true, Bool.and_eq_true] at h
     rcases h with h | ⟨⟨⟨h1, h2⟩, h3⟩, h4⟩
